@@ -2656,6 +2656,17 @@ class KmipEngine(object):
                         )
                     )
 
+                if managed_object._object_type in (
+                    enums.ObjectType.CERTIFICATE,
+                    enums.ObjectType.OPAQUE_DATA
+                ):
+                    raise exceptions.IllegalOperation(
+                        "Key wrapping applies to objects with a key block; "
+                        "object {0} has none and cannot be wrapped.".format(
+                            managed_object.unique_identifier
+                        )
+                    )
+
                 self._logger.info("Wrapping {0} {1} with {2} {3}.".format(
                     ''.join([x.capitalize() for x in object_type.split('_')]),
                     managed_object.unique_identifier,
